@@ -57,6 +57,7 @@ pub fn scan(res: &RunResult<Vec<bool>>, judged: &[usize], three: bool) -> (usize
     fields.sort();
     fields.dedup();
     let fset: HashSet<u128> = fields.iter().copied().collect();
+    let mut index: Option<std::collections::HashMap<[u8; 16], u32>> = None;
     for &party in judged {
         let Some(delta) = res.probes.iter().find(|p| p.site == "delta" && p.party == party).map(|p| p.val) else { continue };
         for (order, target) in [("little-endian", delta.to_le_bytes()), ("big-endian", delta.to_be_bytes())] {
@@ -66,10 +67,24 @@ pub fn scan(res: &RunResult<Vec<bool>>, judged: &[usize], three: bool) -> (usize
             for w in &originals {
                 let x: [u8; 16] = std::array::from_fn(|i| w[i] ^ target[i]);
                 if windows.contains(&x) {
+                    // index window -> first message holding it, built at the first hit only
+                    let index = index.get_or_insert_with(|| {
+                        let mut ix: std::collections::HashMap<[u8; 16], u32> = std::collections::HashMap::new();
+                        for (k, m) in res.msgs.iter().enumerate() {
+                            for y in m.wire.windows(16) {
+                                ix.entry(y.try_into().unwrap()).or_insert(k as u32);
+                            }
+                        }
+                        ix
+                    });
                     let find = |bytes: &[u8; 16]| {
                         let mut rev = *bytes;
                         rev.reverse();
-                        res.msgs.iter().find(|m| m.wire.windows(16).any(|y| y == bytes || y == rev))
+                        match (index.get(bytes), index.get(&rev)) {
+                            (Some(a), Some(b)) => Some(&res.msgs[*a.min(b) as usize]),
+                            (Some(a), None) | (None, Some(a)) => Some(&res.msgs[*a as usize]),
+                            (None, None) => None,
+                        }
                     };
                     let name = |m: Option<&crate::sim::net::MsgRec>| m.map(|m| m.label.clone()).unwrap_or_else(|| "evaluator label".into());
                     let desc = |m: Option<&crate::sim::net::MsgRec>| m.map(|m| format!("{:?}#{} {}->{}", m.label, m.label_occ, m.from, m.to)).unwrap_or_else(|| "evaluator label".into());
@@ -100,7 +115,7 @@ pub fn scan(res: &RunResult<Vec<bool>>, judged: &[usize], three: bool) -> (usize
 }
 
 pub fn test_case(c: &Case, ctx: Option<&Ctx>) -> Result<CaseInfo, Fail> {
-    let run = run_attack(&c.attack, &ExecCfg { record_probes: true, step_budget: 600_000 });
+    let run = run_attack(&c.attack, &ExecCfg { record_probes: true, step_budget: 3_000_000 });
     let n = c.attack.base.n();
     let judged: Vec<usize> = if c.honest_only { (0..n).collect() } else { c.attack.honest_parties() };
     // the evaluator must be able to open exactly one row per AND gate and garbler with what it holds
@@ -136,7 +151,7 @@ pub fn test_case(c: &Case, ctx: Option<&Ctx>) -> Result<CaseInfo, Fail> {
 
 pub fn run(tier: Tier, seed: u64) -> i32 {
     let ctx = Ctx::new("C07", tier, seed, "fault_enumeration");
-    ctx.set_rule("pool scan over (i) proptest-generated honest runs (circuits with NOT gates, n in 2..4, all roles) and (ii) the enumerated deviations of the C04 table (incl. every-batch persistent variants and taps) and of the C03 table; pool = every byte any party put on the wire plus the labels the evaluator decrypted (probe); oracle: for every honest party's global key (probe) - not present at any byte offset in either byte order, no two 16-byte windows (all offsets) XOR to it, no three decoded 128-bit fields XOR to it (runs with <= 6000 fields); and the evaluator, trying the labels it holds on the three other rows of every garbled gate (hook), opens none of them; aborted runs count (bytes already sent); non-trivial = the judged party sent keyed values (aBit stage reached)");
+    ctx.set_rule("pool scan over (i) proptest-generated honest runs (circuits with NOT gates, n in 2..4, all roles; plus circuits of 1001..2300 AND gates whose garbled tables and triples span several batches, n in 2..3) and (ii) the enumerated deviations of the C04 table (incl. every-batch persistent variants and taps) and of the C03 table; pool = every byte any party put on the wire plus the labels the evaluator decrypted (probe); oracle: for every honest party's global key (probe) - not present at any byte offset in either byte order, no two 16-byte windows (all offsets) XOR to it, no three decoded 128-bit fields XOR to it (runs with <= 6000 fields); and the evaluator, trying the labels it holds on the three other rows of every garbled gate (hook), opens none of them; aborted runs count (bytes already sent); non-trivial = the judged party sent keyed values (aBit stage reached)");
     ctx.assume("chance hit probability <= F^3 * 2^-128");
     // (i) honest runs
     let cp = CaseParams { circ: CircParams { n_min: 2, n_max: 4, max_gates: 25, ..Default::default() }, all_scheds: false, caps: vec![0], tmp: false };
@@ -145,6 +160,13 @@ pub fn run(tier: Tier, seed: u64) -> i32 {
         let k = counter.fetch_add(1, std::sync::atomic::Ordering::Relaxed);
         test_case(&Case { attack: AttackCase::honest(base.clone(), 0), honest_only: true, three_subsets: base.n() == 2 && k % 2 == 0, origin: "honest".into() }, Some(&ctx))
     });
+    // (i') honest runs whose AND gates span several garbling / preprocessing batches
+    if !ctx.stopped() {
+        let big = CaseParams { circ: CircParams { n_min: 2, n_max: 3, max_gates: 8, bulk: vec![1001, 1100, 1999, 2001, 2300], bulk_prob: 255, ..Default::default() }, all_scheds: false, caps: vec![0], tmp: false };
+        prop_search(&ctx, "honest-multibatch", tier.pick(6, 150), || gen_case(big.clone()), |base: &MpcCase| {
+            test_case(&Case { attack: AttackCase::honest(base.clone(), 0), honest_only: true, three_subsets: false, origin: "honest-multibatch".into() }, Some(&ctx))
+        });
+    }
     // (ii) deviations
     if !ctx.stopped() {
         let mut cases = vec![];
